@@ -181,6 +181,8 @@ pub fn generate(thorough: bool, seed: u64, out: &mut dyn Write) {
                         pi2 = (pi2 + 1 + rng.below(4)) % 5;
                     }
                     writeln!(out, "names2 {} {} {} {} {} {} {} {}", c, ex, chunk, rng.below(8), pi, pi2, pd, rng.below(6)).unwrap();
+                    // consecutive commands that differ in the data-file number only
+                    writeln!(out, "names3 {} {} {} {} {} {} {}", c, ex, chunk, pd, rng.below(8), rng.below(8), rng.below(8)).unwrap();
                 }
             }
         }
@@ -472,6 +474,36 @@ pub fn run(case: &str, input: &str) -> String {
             guarded(move || {
                 let tag = format!("c15s-{}-{}-{}-{}", cat, ex, chunk, dat);
                 names_answer(&tag, c, ex, chunk, dat, [pi, pi2, pd], patch)
+            })
+        }
+        ("names3", 7) => {
+            // names3 <cat> <ex> <chunk> <platform> <dat> <dat> <dat>: one patch, one platform, three
+            // AddData commands in a row on the same category / expansion / chunk and (possibly)
+            // different data-file numbers; every command writes to the file its own number names
+            let (Some(c), Some(p)) = (category(a[0]), platform(a[3])) else { return "bad-case".into() };
+            let (cat, ex, chunk, plat) = (a[0], a[1], a[2], a[3]);
+            let dats = [a[4], a[5], a[6]];
+            let patch = naming_patch_of(cat, ex, chunk, &[NP::T(plat), NP::A(dats[0]), NP::A(dats[1]), NP::A(dats[2])]);
+            guarded(move || {
+                let repo = Repository {
+                    name: if ex == 0 { "ffxiv".into() } else { format!("ex{}", ex) },
+                    platform: p,
+                    repo_type: if ex == 0 { RepositoryType::Base } else { RepositoryType::Expansion { number: ex as i32 } },
+                    version: None,
+                };
+                let mut read: Vec<String> = dats.iter().map(|d| format!("{}/{}", repo.name, repo.dat_filename(chunk as u8, c, *d as u32))).collect();
+                read.sort();
+                read.dedup();
+                let tmp = crate::c03fs::Scratch::new(&format!("c15n3-{}-{}-{}", cat, ex, chunk));
+                let root = tmp.path().join("game");
+                std::fs::create_dir_all(&root).unwrap();
+                let pf = tmp.path().join("p.patch");
+                std::fs::write(&pf, patch).unwrap();
+                let res = physis::patch::ZiPatch::apply(root.to_str().unwrap(), pf.to_str().unwrap());
+                let mut files = vec![];
+                list_files(&root.join("sqpack"), "", &mut files);
+                files.sort();
+                format!("read={} patch={}{}", read.join(","), if res.is_ok() { "" } else { "apply-err:" }, files.join(","))
             })
         }
         ("sort", _) => {
